@@ -321,6 +321,99 @@ static void flts(uint64_t seed)
                 near("fn_log", xs::log(m), xs::log(vm).get(0), 8);
                 near("fn_sqrt", xs::sqrt(m), xs::sqrt(vm).get(0), 1);
             }
+            // the remaining scalar forms (std:: imports and the library's own exp10 / sincos); tolerance = the function's frozen
+            // C10/C11 bound + 1 ulp for the scalar side, in units of eps*|scalar| (>= 1 ulp), results outside the normal range skipped by near();
+            // + 4 ulp because glibc documents up to 4 ulp for some of its own functions (cbrt), so "scalar side within 1 ulp" would be a false alarm
+            auto near2 = [&](const char* op, T sv, T bv, double ulps) { near(op, sv, bv, ulps + 4); };
+            near2("fn_exp2", xs::exp2(m), xs::exp2(vm).get(0), 4);
+            near2("fn_exp10", xs::exp10(m), xs::exp10(vm).get(0), 4.5);
+            near2("fn_expm1", xs::expm1(m), xs::expm1(vm).get(0), 4.5);
+            near2("fn_tan", xs::tan(m), xs::tan(vm).get(0), 6.5);
+            near2("fn_sinh", xs::sinh(m), xs::sinh(vm).get(0), 5.5);
+            near2("fn_cosh", xs::cosh(m), xs::cosh(vm).get(0), 5.5);
+            near2("fn_asinh", xs::asinh(m), xs::asinh(vm).get(0), 6.5);
+            {
+                auto sc = xs::sincos(m);
+                auto vc2 = xs::sincos(vm);
+                near2("fn_sincos_sin", sc.first, vc2.first.get(0), 5);
+                near2("fn_sincos_cos", sc.second, vc2.second.get(0), 5);
+            }
+            if (m > 0)
+            {
+                near2("fn_log2", xs::log2(m), xs::log2(vm).get(0), 4.5);
+                near2("fn_log10", xs::log10(m), xs::log10(vm).get(0), 3.5);
+            }
+            if (m > -1)
+                near2("fn_log1p", xs::log1p(m), xs::log1p(vm).get(0), 3.5);
+            if (m >= 1)
+                near2("fn_acosh", xs::acosh(m), xs::acosh(vm).get(0), 5);
+            {
+                T u = m / (T)15.5; // in (-1, 1)
+                B vu(u);
+                near2("fn_asin", xs::asin(u), xs::asin(vu).get(0), 5);
+                near2("fn_acos", xs::acos(u), xs::acos(vu).get(0), 4);
+                near2("fn_atanh", xs::atanh(u), xs::atanh(vu).get(0), 4.5);
+            }
+            {
+                T y = (T)(((double)(rng.next() % 2000001) - 1000000.0) / 65536.0);
+                B vy(y);
+                if (m != 0 || y != 0)
+                    near2("fn_atan2", xs::atan2(m, y), xs::atan2(vm, vy).get(0), 5.5);
+                near2("fn_hypot", xs::hypot(m, y), xs::hypot(vm, vy).get(0), 4);
+                if (m > 0)
+                { // pow bound 4*(1+|y ln x|) ulp
+                    double budget_ulps = 4.0 * (1.0 + std::fabs((double)y * std::log((double)m))) + 2;
+                    near2("fn_pow", xs::pow(m, y), xs::pow(vm, vy).get(0), budget_ulps);
+                }
+            }
+        }
+        // the same over the whole exponent range (log-uniform magnitudes, both signs) for the functions whose results stay representable
+        if (it % 4 == 1)
+        {
+            using U = bits_t<T>;
+            T m = frombits<T>((U)rng.next());
+            if (m != m || std::isinf(m) || std::fabs(m) < std::numeric_limits<T>::min())
+                m = (T)0.625;
+            B vm(m);
+            auto nearw = [&](const char* op, T s, T v, double ulps)
+            {
+                OpStat& st = reg("C17", op, tname<T>());
+                if (!st.on || s != s || std::isinf(s) || std::fabs(s) < std::numeric_limits<T>::min() * 4 || std::fabs(s) > std::numeric_limits<T>::max() / 4)
+                    return;
+                st.evals++;
+                int ex;
+                std::frexp((double)m, &ex);
+                st.cell((unsigned)(((ex + 1100) & 0xfff) * 2 + (m < 0)));
+                if (!(std::fabs((double)v - (double)s) <= (ulps + 4) * (double)std::numeric_limits<T>::epsilon() * std::fabs((double)s))) // + 4: glibc's own documented error (cbrt)
+                    viol(st, "unclassified", "{\"x\":\"" + hexv(m) + "\",\"scalar\":\"" + hexv(s) + "\",\"batch_lane0\":\"" + hexv(v) + "\",\"range\":\"wide\"}");
+            };
+            nearw("fn_atan", xs::atan(m), xs::atan(vm).get(0), 4);
+            nearw("fn_cbrt", xs::cbrt(m), xs::cbrt(vm).get(0), 2);
+            nearw("fn_tanh", xs::tanh(m), xs::tanh(vm).get(0), 3);
+            nearw("fn_asinh", xs::asinh(m), xs::asinh(vm).get(0), 5.5);
+            nearw("fn_expm1", xs::expm1(m), xs::expm1(vm).get(0), 3.5);
+            nearw("fn_exp", xs::exp(m), xs::exp(vm).get(0), 3);
+            nearw("fn_exp2", xs::exp2(m), xs::exp2(vm).get(0), 3);
+            nearw("fn_exp10", xs::exp10(m), xs::exp10(vm).get(0), 3.5);
+            nearw("fn_sinh", xs::sinh(m), xs::sinh(vm).get(0), 4.5);
+            nearw("fn_cosh", xs::cosh(m), xs::cosh(vm).get(0), 4.5);
+            nearw("fn_erf", xs::erf(m), xs::erf(vm).get(0), sizeof(T) == 8 ? 97 : 4.5);
+            if (m > 0)
+            {
+                nearw("fn_log", xs::log(m), xs::log(vm).get(0), 2.5);
+                nearw("fn_log2", xs::log2(m), xs::log2(vm).get(0), 3.5);
+                nearw("fn_log10", xs::log10(m), xs::log10(vm).get(0), 2.5);
+                nearw("fn_sqrt", xs::sqrt(m), xs::sqrt(vm).get(0), 1);
+                nearw("fn_log1p", xs::log1p(m), xs::log1p(vm).get(0), 2.5);
+                if (m >= 1)
+                    nearw("fn_acosh", xs::acosh(m), xs::acosh(vm).get(0), 4);
+            }
+            if (sizeof(T) == 4 || std::fabs(m) >= 64)
+            { // float: every magnitude; double: the accurate (Payne-Hanek) range only, the medium range has the open finding F29 (C11)
+                nearw("fn_sin", xs::sin(m), xs::sin(vm).get(0), 4);
+                nearw("fn_cos", xs::cos(m), xs::cos(vm).get(0), 4);
+                nearw("fn_tan", xs::tan(m), xs::tan(vm).get(0), 5.5);
+            }
         }
     }
 }
